@@ -81,7 +81,19 @@ func genLinkHist(r *lib.Rng, id int) *linkHist {
 	h.C0 = lib.Pick(r, linkContents)
 	h.Events = append(h.Events, linkEvent{Kind: "run", Threads: 1})
 	n := r.Range(4, 7)
-	runs := 1
+	runs, cur := 1, h.C0
+	// mostly another content than the present one (an edit to the same content is a no-op; a replacement by the same
+	// content keeps the old inode as the output)
+	other := func(same int) string {
+		if r.Chance(same, 6) {
+			return cur
+		}
+		for {
+			if c := lib.Pick(r, linkContents); c != cur {
+				return c
+			}
+		}
+	}
 	for i := 0; i < n; i++ {
 		last := h.Events[len(h.Events)-1].Kind
 		var e linkEvent
@@ -90,9 +102,11 @@ func genLinkHist(r *lib.Rng, id int) *linkHist {
 			runs++
 			e = linkEvent{Kind: "run", Threads: []int{1, 16}[runs%2]}
 		case k < 7:
-			e = linkEvent{Kind: "edit", Content: lib.Pick(r, linkContents)}
+			e = linkEvent{Kind: "edit", Content: other(1)}
+			cur = e.Content
 		case k < 9:
-			e = linkEvent{Kind: "replace", Content: lib.Pick(r, linkContents)}
+			e = linkEvent{Kind: "replace", Content: other(3)}
+			cur = e.Content
 		default:
 			e = linkEvent{Kind: "rmout"}
 		}
